@@ -872,3 +872,8 @@ def leaks(tier, seed):
         p["name"] = f"rand{k}"
         progs.append(p)
     return [normalize(fix_br(p)) for p in progs]
+
+
+def fix_br_skips(q, t, a, b, skip):
+    """instructions were inserted into thread t: programs with br are not used for regions"""
+    return q
